@@ -29,14 +29,22 @@ CONSTANTS Known,        \* registered configurables: set of [sel, params, deny]
           FileNames,    \* names of the files that exist in the model ("root" is parsed)
           MaxPerFile,   \* [name -> max number of statements]
           SkipForms,    \* values of skip_unknown explored: [mode |-> "false" | "true" | "list", names |-> set of selectors]
-          Locations,    \* search locations (sequence, current directory first)
+          RegLogs,      \* possible histories of add_config_file_search_path calls (sequences of locations, duplicates
+                        \* and the explicit current directory "" included)
+          EntryForms,   \* sequence of calls of parse_config_files_and_bindings explored per store: [files, bindings, finalize]
+          EntryBinding, \* the statement the extra `bindings` argument consists of (when there is one)
           Readers,      \* registered readers (sequence of ids)
           PresentChoices \* possible placements of the files: set of sets of <<location, reader, name>>
 
 VARIABLES files,        \* [FileNames -> sequence of statements]
           skip,         \* the skip_unknown argument of this run
-          present       \* where each file can be found: set of <<location, reader, name>>
-vars == <<files, skip, present>>
+          present,      \* where each file can be found: set of <<location, reader, name>>
+          reglog        \* the locations registered so far, in registration order (2448-2464: appended, never reordered)
+vars == <<files, skip, present, reglog>>
+
+\* the search order: the current directory, then every registered location in registration order; registering a
+\* location twice (or the current directory explicitly) changes nothing about who comes first
+Locations == <<"">> \o reglog
 
 KnownSels == { k.sel : k \in Known }
 ConfOf(sel) == CHOOSE k \in Known : k.sel = sel
@@ -111,7 +119,9 @@ ParseFile(st, name, sk, fuel) ==
   LET r == Resolve(name) IN
   IF r[1] = "none" \/ fuel = 0 THEN [st |-> st, status |-> "IOError", chain |-> <<>>, tree |-> <<>>, imps |-> <<>>]
   ELSE LET d == ParseDoc(st, files[name], 1, 1, sk, name, fuel) IN
-       [st |-> d.st, status |-> d.status, chain |-> d.chain,
+       \* 2429-2432: a parse_config call that runs to its end records the imports of its own text
+       [st |-> IF d.status = "ok" THEN [d.st EXCEPT !.imports = @ \cup ToSet(d.imps)] ELSE d.st,
+        status |-> d.status, chain |-> d.chain,
         tree |-> << [file |-> name, imports |-> d.imps, includes |-> d.tree] >>, imps |-> d.imps]
 
 \* statements k.. of doc (the k-th begins at `line`) of file `file`
@@ -152,11 +162,33 @@ ParseDoc(st, doc, k, line, sk, file, fuel) ==
            ELSE IF r.status = "SyntaxError" THEN Done(r.st, r.status, r.chain, <<>>, <<>>)
            ELSE Done(r.st, r.status, r.chain \o << <<file, line>> >>, <<>>, <<>>)    \* one more location level (2394-2396)
 
-\* the entry point: a failed parse records no imports (2400-2403 are not reached)
+\* the entry point.  Imports are recorded per parse_config call that completes: an included file that was parsed to
+\* its end has recorded its imports even if the including file fails later; a skipped import is never recorded
 ParseTop ==
   LET r == ParseFile(Empty, "root", skip, 4) IN
   [cfg |-> r.st.cfg, prov |-> r.st.prov, status |-> r.status, chain |-> r.chain,
-   tree |-> IF r.status = "ok" THEN r.tree ELSE <<>>]
+   tree |-> IF r.status = "ok" THEN r.tree ELSE <<>>,
+   recorded |-> r.st.imports]
+
+------------------------------------------------------------------------------
+(* parse_config_files_and_bindings (2568-2578): every file in order, then the extra bindings, then finalize unless
+   told not to - whatever the arguments are (no files, no bindings, None, '' or []).  Result [cfg, status, locked] *)
+RECURSIVE EntryFiles(_, _, _)
+EntryFiles(st, fs, k) ==
+  IF k > Len(fs) THEN [st |-> st, status |-> "ok"]
+  ELSE LET r == ParseFile(st, fs[k], skip, 4) IN
+       IF r.status # "ok" THEN [st |-> r.st, status |-> r.status] ELSE EntryFiles(r.st, fs, k + 1)
+BindingsDoc(b) == IF b = "one" THEN <<EntryBinding>> ELSE <<>>          \* None, '' and [] all mean: nothing more to parse
+\* finalize's built-in hooks reject a configuration that still refers to unknown configurables (2853-2868)
+HasPlaceholder(cf) == \E i \in 1..Len(cf) : cf[i].val[1] = "unk"
+EntryResult(e) ==
+  LET a == EntryFiles(Empty, e.files, 1) IN
+  IF a.status # "ok" THEN [cfg |-> a.st.cfg, status |-> a.status, locked |-> FALSE]
+  ELSE LET b == ParseDoc(a.st, BindingsDoc(e.bindings), 1, 1, skip, "", 4) IN
+       IF b.status # "ok" THEN [cfg |-> b.st.cfg, status |-> b.status, locked |-> FALSE]
+       ELSE IF ~e.finalize THEN [cfg |-> b.st.cfg, status |-> "ok", locked |-> FALSE]
+       ELSE IF HasPlaceholder(b.st.cfg) THEN [cfg |-> b.st.cfg, status |-> "ValueError", locked |-> FALSE]
+       ELSE [cfg |-> b.st.cfg, status |-> "ok", locked |-> TRUE]
 
 ------------------------------------------------------------------------------
 (* The declarative side: the flattened text *)
@@ -214,6 +246,20 @@ C14_C16_Flatten ==
   /\ p.status = Decl.status
   /\ (p.status \notin {"ok", "SyntaxError"} => p.chain = Decl.chain)
 
+\* C14: the multi-file entry point is the concatenation of its files followed by the extra bindings, and it leaves
+\* the configuration locked exactly when everything was applied and finalize was not switched off
+EntryFlat(e) ==
+  FlattenSeq([k \in 1..Len(e.files) |-> Flatten(e.files[k], <<>>, 4)])
+  \o [k \in 1..Len(BindingsDoc(e.bindings)) |-> [t |-> "stmt", s |-> BindingsDoc(e.bindings)[k], file |-> "", line |-> k, via |-> <<>>]]
+C14_Entry ==
+  \A i \in 1..Len(EntryForms) :
+    LET e == EntryForms[i]
+        r == EntryResult(e)
+        d == ApplyUntilError(Empty, EntryFlat(e), 1, skip)
+    IN /\ r.cfg = d.st.cfg
+       /\ (d.status # "ok" => r.status = d.status /\ ~r.locked)
+       /\ (d.status = "ok" => (r.locked <=> (e.finalize /\ ~HasPlaceholder(d.st.cfg))))
+
 \* C15: parsing with skip_unknown = deleting the statements that target unknown (listed) names
 IsDropped(s, sk) ==
   CASE s.t = "bind" -> ShouldSkip(s.sel, sk) /\ StoredVal(s.val, sk)[1] = "ok"
@@ -250,7 +296,7 @@ C14_Resolve ==
     r[1] = "found" =>
       \A c \in present : c[3] = n =>
         LET locs == IF IsAbsolute(n) THEN <<"">> ELSE Locations
-            li(x) == CHOOSE i \in 1..Len(locs) : locs[i] = x[1]
+            li(x) == CHOOSE i \in 1..Len(locs) : locs[i] = x[1] /\ \A j \in 1..(i - 1) : locs[j] # x[1]
             ri(x) == CHOOSE j \in 1..Len(Readers) : Readers[j] = x[2]
         IN (c[1] \in ToSet(locs)) => (li(r[2]) < li(c) \/ (li(r[2]) = li(c) /\ ri(r[2]) <= ri(c)))
 
@@ -259,11 +305,12 @@ Init ==
   /\ files = [n \in FileNames |-> <<>>]
   /\ skip \in SkipForms
   /\ present \in PresentChoices
+  /\ reglog \in RegLogs
 Next ==
   \E n \in FileNames, t \in Templates :
     /\ Len(files[n]) < MaxPerFile[n]
     /\ (t.t = "include" => t.file # n /\ n \notin {"b", "p"} /\ (n = "a" => t.file # "root"))   \* root -> a -> b / p, no cycles
     /\ files' = [files EXCEPT ![n] = Append(@, t)]
-    /\ UNCHANGED <<skip, present>>
+    /\ UNCHANGED <<skip, present, reglog>>
 Spec == Init /\ [][Next]_vars
 =============================================================================
